@@ -19,6 +19,21 @@ From Agdb Require Import Raft.
 Import ListNotations.
 Open Scope N_scope.
 
+(* C29 as checked by the oracles: every entry committed by a leader of term t is in the log of every node that
+   becomes leader LATER FOR A HIGHER TERM (Raft's Leader Completeness).  `Raft.leader_completeness_b` is the literal
+   reading (every later leader whatever its term), which a harmless history violates — a stale candidate that
+   becomes leader of an older term (RaftLogLC.late_leader_refutes_literal_C29). *)
+Fixpoint leader_completeness_up_b (h : list ghost) : bool :=
+  match h with
+  | [] => true
+  | GCommit _ true t idx e :: rest =>
+      forallb (fun g => match g with
+                        | GLeader _ t' log => negb (t <? t') || oentry_eqb (log_at log idx) e
+                        | _ => true end) rest
+      && leader_completeness_up_b rest
+  | _ :: rest => leader_completeness_up_b rest
+  end.
+
 (* does node v, being in term t, hold e at idx *)
 Definition holds_b (t idx : N) (e : option entry) (v : node) : bool :=
   (n_term v =? t) && oentry_eqb (log_at (n_logs v) idx) e.
